@@ -1,5 +1,5 @@
 ---- MODULE MC_InheritBounds ----
 (* Bounds of the MC_Inherit enumeration (longest chain per family); harness/c06.py overwrites this *)
 (* module in its scratch copy according to the tier.                                               *)
-MaxNDef == [dispatch |-> 4, attrs |-> 4, blocks |-> 4, args |-> 4, dyn |-> 3, entry |-> 3]
+MaxNDef == [dispatch |-> 4, attrs |-> 4, blocks |-> 4, args |-> 4, dyn |-> 3, entry |-> 3, dirs |-> 3]
 ====
